@@ -46,6 +46,8 @@ class Simulation(object):
         self.inter_arrival_times = self.find_arrival_dists()
         self.service_times = self.find_service_dists()
         self.batch_sizes = self.find_batching_dists()
+        self.reneging_times = self.find_reneging_dists()
+        self.class_change_times = self.find_class_change_dists()
         self.show_simulation_to_distributions()
         self.number_of_priority_classes = self.network.number_of_priority_classes
         self.transitive_nodes = [node_type(i + 1, self) for i, node_type in enumerate(self.NodeTypes)]
@@ -109,6 +111,28 @@ class Simulation(object):
                 clss: copy.deepcopy(self.network.customer_classes[clss].batching_distributions[node])
                 for clss in self.network.customer_class_names
             } for node in range(self.network.number_of_nodes)
+        }
+
+    def find_reneging_dists(self):
+        """
+        Create the dictionary of reneging time distribution
+        objects for each node for each customer class.
+        """
+        return {
+            node + 1: {
+                clss: copy.deepcopy(self.network.customer_classes[clss].reneging_time_distributions[node])
+                for clss in self.network.customer_class_names
+            } for node in range(self.network.number_of_nodes)
+        }
+
+    def find_class_change_dists(self):
+        """
+        Create the dictionary of class change time distribution
+        objects for each pair of customer classes.
+        """
+        return {
+            clss: copy.deepcopy(self.network.customer_classes[clss].class_change_time_distributions)
+            for clss in self.network.customer_class_names
         }
 
     def show_simulation_to_distributions(self):
